@@ -317,6 +317,10 @@ struct rp_h {
     RPBlockAccess verdict;      /* what the backend answers */
     unsigned char fill_seed;    /* reads deliver word i = f(seed, i) */
     int backend_small_buffer;   /* handed a buffer with less room than asked */
+    /* optional: the source exposes a window through the getbuffer extension, so that the plumbing moves
+     * several octets at a time into the receiver's sink */
+    unsigned char win[80];
+    size_t winsize;
 };
 
 static struct rp_h *rp_cur;
@@ -399,6 +403,42 @@ rp_src_octet(void *drv, void *out)
 }
 
 static ssize_t
+rp_src_chunk(void *drv, void *out, size_t n)
+{
+    struct rp_h *h = drv;
+    if (++h->in_calls > h->in_bound) {
+        h->in_runaway = 1;
+        return -EIO;
+    }
+    if (n == 0)
+        return -EINVAL;
+    if (h->in_pos == h->in_fail_at) {
+        h->in_fail_at = SIZE_MAX;
+        return -EIO;
+    }
+    if (h->in_pos >= h->in_n)
+        return -ENODATA;
+    size_t k = h->in_n - h->in_pos;
+    if (k > n)
+        k = n;
+    /* a channel error inside the span cuts the read short in front of it */
+    if (h->in_fail_at > h->in_pos && h->in_fail_at - h->in_pos < k)
+        k = h->in_fail_at - h->in_pos;
+    memcpy(out, h->in + h->in_pos, k);
+    h->in_pos += k;
+    return (ssize_t)k;
+}
+
+static ByteBuffer
+rp_getbuffer(Source *s)
+{
+    struct rp_h *h = s->driver;
+    ByteBuffer b;
+    byte_buffer_use(&b, h->win, h->winsize);
+    return b;
+}
+
+static ssize_t
 rp_sink_chunk(void *drv, const void *p, size_t n)
 {
     struct rp_h *h = drv;
@@ -451,10 +491,14 @@ static RPBlockAccess rp_w16(uint32_t a, size_t n, const uint16_t *b) { return rp
 static RPBlockAccess rp_r8(uint32_t a, size_t n, uint8_t *b) { return rp_be(0, 1, a, n, b, NULL); }
 static RPBlockAccess rp_w8(uint32_t a, size_t n, const uint8_t *b) { return rp_be(1, 1, a, n, NULL, b); }
 
+static size_t rp_next_window; /* set before rp_setup() to get a getbuffer source with that window size */
+
 static void
 rp_setup(struct rp_h *h, int serial, int mem16, size_t blocksize)
 {
     memset(h, 0, offsetof(struct rp_h, out));
+    h->winsize = rp_next_window > sizeof h->win ? sizeof h->win : rp_next_window;
+    rp_next_window = 0;
     h->out_n = 0;
     h->ncalls = 0;
     h->verdict = (RPBlockAccess){ .status = RP_RESP_ACK, .address = 0 };
@@ -473,7 +517,12 @@ rp_setup(struct rp_h *h, int serial, int mem16, size_t blocksize)
         regp_use_memory8(&h->p, rp_r8, rp_w8);
     Source src;
     Sink snk;
-    octet_source_init(&src, rp_src_octet, h);
+    if (h->winsize) {
+        chunk_source_init(&src, rp_src_chunk, h);
+        src.ext.getbuffer = rp_getbuffer;
+    } else {
+        octet_source_init(&src, rp_src_octet, h);
+    }
     chunk_sink_init(&snk, rp_sink_chunk, h);
     regp_use_channel(&h->p, serial ? RP_EP_SERIAL : RP_EP_TCP, src, snk);
     regp_use_allocator(&h->p, &h->alloc);
